@@ -15,7 +15,7 @@ PROP = "C14"
 MAXRATE = 1920
 META = {
  "engine": "S-scheduler",
- "text": "Coq theorems (Props/C14.v, closed under the global context) prove, for ALL positive rates below 10^8 and all run lengths: after n timeline ticks a device has received exactly ceil(n*out/in) ticks (out | in: one tick on timeline tick 0 and then on every (in/out)-th, so every window of in/out ticks holds exactly one; in | out: exactly out/in per tick; any window of `in` timeline ticks = one beat holds exactly `out` device ticks, hence 24 MIDI clocks per beat), the code's round(pos, 8) > 1 test agrees with the exact comparison, a pair is refused on the first next() exactly when neither rate divides the other and never otherwise, a device without a rate gets one tick per tick; for the internal clock, for ANY non-decreasing sequence of clock readings (arbitrary lateness, stalls) the total number of ticks delivered after each wake-up is floor((t - t0)/delta) (none dropped or doubled), after a tempo change the ticks follow the new duration exactly from the next tick, and an external MIDI clock produces exactly one tick per clock message (start/stop/songpos 0 -> start/stop/reset, nothing else ticks) whatever the wall-clock readings the callback takes for its tempo estimate (any integers: equal, decreasing, microseconds or hours apart); on a steady clock the estimate is exactly 2.5/interval bpm. The models are tied to the repository on every run: make_clock_multiplier on every ordered dividing pair up to 1920 (exhaustive) and sampled non-dividing pairs, Timeline.tick with 1-3 devices incl. a MidiOutputDevice on a fake port, Clock.run on a scripted virtual clock, MidiInputDevice._callback with the time module it sees replaced by a scripted clock (13 time profiles); all compared inside Coq (vm_compute) and judged by an independent exact-arithmetic oracle that supplies the failing input. With the device wired to a real Timeline (Clock/MidiInWired.v: the callback composed with the Timeline's reactions, which call back into the device — Timeline.stop() -> clock_source.stop(), Timeline.start() -> clock_source.run()) the number of Timeline.tick() calls equals the number of clock messages after every event of ANY history of messages and user-level timeline.stop()/start()/reset() calls, and the k-th clock message carries the device ticks of the k-th tick of an uninterrupted timeline (C14_midi_wired_*); checked on every run against a real Timeline clocked by a MidiInputDevice on a fake port, with stop/start/songpos messages and user-level calls followed by further clock messages.",
+ "text": "Coq theorems (Props/C14.v, closed under the global context) prove, for ALL positive rates below 10^8 and all run lengths: after n timeline ticks a device has received exactly ceil(n*out/in) ticks (out | in: one tick on timeline tick 0 and then on every (in/out)-th, so every window of in/out ticks holds exactly one; in | out: exactly out/in per tick; any window of `in` timeline ticks = one beat holds exactly `out` device ticks, hence 24 MIDI clocks per beat), the code's round(pos, 8) > 1 test agrees with the exact comparison, a pair is refused on the first next() exactly when neither rate divides the other and never otherwise, a device without a rate gets one tick per tick; for the internal clock, for ANY non-decreasing sequence of clock readings (arbitrary lateness, stalls) the total number of ticks delivered after each wake-up is floor((t - t0)/delta) (none dropped or doubled), after a tempo change the ticks follow the new duration exactly from the next tick, and an external MIDI clock produces exactly one tick per clock message (start/stop/songpos 0 -> start/stop/reset, nothing else ticks) whatever the wall-clock readings the callback takes for its tempo estimate (any integers: equal, decreasing, microseconds or hours apart); on a steady clock the estimate is exactly 2.5/interval bpm. The models are tied to the repository on every run: make_clock_multiplier on every ordered dividing pair up to 1920 (exhaustive) and sampled non-dividing pairs, Timeline.tick with 1-3 devices incl. a MidiOutputDevice on a fake port, Clock.run on a scripted virtual clock, MidiInputDevice._callback with the time module it sees replaced by a scripted clock (13 time profiles); all compared inside Coq (vm_compute) and judged by an independent exact-arithmetic oracle that supplies the failing input. With the device wired to a real Timeline (Clock/MidiInWired.v: the callback composed with the Timeline's reactions, which call back into the device — Timeline.stop() -> clock_source.stop(), Timeline.start() -> clock_source.run()) the number of Timeline.tick() calls equals the number of clock messages after every event of ANY history of messages and user-level timeline.stop()/start()/reset() calls, and the k-th clock message carries the device ticks of the k-th tick of an uninterrupted timeline (C14_midi_wired_*); checked on every run against a real Timeline clocked by a MidiInputDevice on a fake port, with stop/start/songpos messages and user-level calls followed by further clock messages. Re-configuration after construction (Clock/Reconfig.v): when the timeline's rate has changed (clock source replaced by a Clock / DummyClock / MidiInputDevice of another PPQN, ticks_per_beat assigned) the devices are ticked exactly as on a timeline built at the new rate, send_clock switches never change the device.tick() calls and decide only whether a pulse reaches the port, and a replacing Clock made without a target delivers floor(elapsed / new tick duration) ticks whatever the old rate was (C14_reconfig_*, C14_send_clock_*, C14_replaced_clock); checked on every run on histories of ticks, rate changes, added / replaced devices and send_clock switches, on Clock.run scripts whose clock replaced another, and on a MIDI output switched on after it was attached.",
  "note": "Partial in the DESIGN sense: threads, time.sleep and the OS scheduler are outside the model (the theorem covers every sequence of readings, not the mechanism producing them); float rounding of `pos`/`clock0` accumulation is validated by the correspondence runs (readings kept >= 2e-6 s from deadlines except in the exactly-representable dyadic stratum), not proved; warpers and jitter>0 are not modelled; the tempo estimate of MidiInputDevice is modelled exactly and compared with relative tolerance 1e-9 on strictly increasing readings only. Trusted: Coq kernel + VM; the Python harness; Python int //, % = Z.div/Z.modulo.",
 }
 HEADER = """From Isobar Require Import Base.Prelude Clock.Multiplier Clock.ClockRun Clock.MidiIn.
@@ -422,7 +422,7 @@ class RefClock:
             self.c0 += self.dur
 
 
-def gen_clock_case(rng, kind):
+def gen_clock_case(rng, kind, midi_late=False):
     dyadic = kind == "dyadic"
     if dyadic:
         tpb = rng.choice([32, 64, 256, 512, 1024])
@@ -436,7 +436,11 @@ def gen_clock_case(rng, kind):
         t0 = Fraction(rng.randint(0, 5000 * GRID), GRID)
     target, a, b = rng.choice(["obj", "obj", "timeline"]), None, None
     target_rate = None
-    if kind == "ratio":
+    if midi_late:
+        # the clock's target is a real MidiOutputDevice opened with clock output off, switched on afterwards: 24 pulses per beat
+        tpb = rng.choice([480, 480, 96, 960, 24, 48, 120, 1920, 12, 8, 100, 36])
+        target, target_rate, a, b = "midi_late", 24, 24, tpb
+    elif kind == "ratio":
         target = "obj"
         u = rng.random()
         ds = [d for d in range(1, tpb + 1) if tpb % d == 0]
@@ -523,6 +527,8 @@ def clock_payload(c):
          "cb": {str(i): v for i, v in c["cb"].items()}, "between": {str(i): v for i, v in c["between"].items()}}
     if c["accelerate"] != 1.0:
         p["accelerate"] = c["accelerate"]
+    if c.get("replace"):
+        p["replace"] = c["replace"]
     return p
 
 
@@ -630,10 +636,20 @@ def check_clock(run):
     kinds = ["plain"] * 30 + ["tempo"] * 40 + ["dyadic"] * 18 + ["ratio"] * 12
     cases = []
     while len(cases) < n:
-        c = gen_clock_case(rng, kinds[len(cases) % len(kinds)])
+        kind = kinds[len(cases) % len(kinds)]
+        c = gen_clock_case(rng, kind, midi_late=(kind == "ratio" and len(cases) % 3 == 0))
         if c is None:
             run.discard("clock script: no reading >= 2e-6 s away from every deadline found in 8 tries")
             continue
+        if c["target"] == "timeline" and len(cases) % 2 == 0:
+            # the clock that runs REPLACED the clock source the timeline was built with (another PPQN, mostly): the timeline
+            # is created at old_tpb, then `timeline.clock_source = Clock(tempo=.., ticks_per_beat=tpb)`
+            u = rng.random()
+            tpb = c["tpb"]
+            rel = [r for r in (24, 48, 96, 120, 240, 480, 960, 1920) if r != tpb and divides_either(r, tpb)]
+            old = rng.choice(rel) if rel and u < 0.45 else rng.choice([r for r in (100, 36, 7, 1000, 480, 96) if r != tpb]) if u < 0.8 else \
+                tpb if u < 0.9 else rng.randint(1, MAXRATE)
+            c["replace"] = {"old_tpb": old, "old_tempo": rng.choice(TEMPOS)}
         cases.append(c)
     res = run_sharded(run, "clock", [clock_payload(c) for c in cases], lambda p: len(p["readings"]))
     terms, meta = [], []
@@ -642,6 +658,9 @@ def check_clock(run):
         run.count(len(ts))
         strat = "clock.%s.%s" % (c["kind"], c["target"])
         run.dist(strat)
+        if c.get("replace"):
+            o, nw = c["replace"]["old_tpb"], c["tpb"]
+            run.dist("clock.replaced-clock-source.%s" % ("same PPQN" if o == nw else "old PPQN divides / is a multiple of the new" if divides_either(o, nw) else "old and new PPQN do not divide"))
         if c["cb"]:
             run.dist("clock.change-in-callback")
         if c["between"]:
@@ -672,7 +691,7 @@ def check_clock(run):
         U = lambda x: int(x * D)
         rds = "[" + "; ".join("(%s, %s)" % (zlit(U(t)), "None" if j not in c["between"] else "(Some %s)" % zlit(U(delta(c["between"][j], tpb))))
                               for j, t in enumerate(ts)) + "]"
-        out = None if c["target"] == "timeline" else c["target_rate"]
+        out = None if c["target"] == "timeline" else c["target_rate"]       # a replaced clock: made without a target, 1:1 (C14_replaced_clock)
         args = "%s %s %s %s %s %s %s %s" % (
             rlit(out), rlit(tpb), plist(sorted((i, U(delta(v, tpb))) for i, v in c["cb"].items())),
             zlit(U(delta(c["tempo"], tpb))), zlit(U(ts[0])), rds, zlist(counts), zlit(code))
@@ -1389,9 +1408,269 @@ def check_midi_wired(run):
             "case": meta[i], "coq_term": terms[i][:2000]}, found_input=False)
 
 
+# ================================================================================================
+# 6. A timeline that is RE-CONFIGURED after construction
+# ================================================================================================
+# The dimension: the clock source is replaced on an existing timeline (another PPQN, the same PPQN; Clock / DummyClock /
+# MidiInputDevice) or ticks_per_beat is assigned; devices are added / replaced while it runs; send_clock of a MIDI output is
+# switched after the device was attached.  Then: device ratios exact for the rate the timeline HAS, 24 pulses per beat on a
+# MIDI clock output.  Model: Clock/Reconfig.v; theorems C14_reconfig_*, C14_send_clock_*, C14_replaced_clock.
+HEADER_RECONFIG = """From Isobar Require Import Base.Prelude Clock.Multiplier Clock.Reconfig.
+"""
+SITE_RECONFIG = "Timeline.tick(reconfigured)"
+RC_RATES = [480, 480, 96, 24, 120, 960, 48, 240, 192, 12]
+
+
+def rc_rate(spec):
+    return 24 if spec in ("midi_on", "midi_off") else spec
+
+
+def rc_on(spec):
+    return spec != "midi_off"
+
+
+def rc_simulate(case, retune):
+    """per-tick observation codes and end code.  retune=True: what the property demands (the converters are made anew, by
+    the first tick after it, when the timeline's rate has changed since they were made); retune=False: converters are made
+    once, at attach time, for the rate the timeline had then (for the classification of a deviation only)."""
+    R = case["rate"]
+    devs = [{"r": rc_rate(sp), "on": rc_on(sp), "j": 0, "R": R} for sp in case["devs"]]
+    conv = R
+    out, code = [], 0
+    for ev in case["events"]:
+        k = ev[0]
+        if k == "tick":
+            for _ in range(ev[1]):
+                if retune and conv != R:
+                    conv = R
+                    for d in devs:
+                        d["j"], d["R"] = 0, R
+                v = 0
+                for i, d in enumerate(devs):
+                    if truthy(d["r"]) and truthy(d["R"]):
+                        if not divides_either(d["r"], d["R"]):
+                            code = -1
+                            break
+                        n = E(d["j"] + 1, d["r"], d["R"]) - E(d["j"], d["r"], d["R"])
+                    else:
+                        n = 1
+                    d["j"] += 1
+                    for _ in range(n):
+                        v = v * 8 + (2 * i + (1 if d["on"] else 0) + 1)
+                out.append(v)
+                if code:
+                    return out, code
+        elif k == "replace_clock":
+            R = 24 if ev[1] == "midi" else ev[2]
+        elif k == "set_tpb":
+            R = ev[1]
+        elif k == "add_device":
+            devs.append({"r": rc_rate(ev[1]), "on": rc_on(ev[1]), "j": 0, "R": R})
+            if len(devs) == 1:
+                conv = R
+        elif k == "set_device":
+            devs = [{"r": rc_rate(ev[1]), "on": rc_on(ev[1]), "j": 0, "R": R}]
+            conv = R
+        elif k == "send_clock":
+            devs[ev[1]]["on"] = bool(ev[2])
+    return out, code
+
+
+def rc_pick_device(rng, R):
+    u = rng.random()
+    if u < 0.30:
+        return rng.choice(["midi_on", "midi_off"])
+    if u < 0.42:
+        return None
+    ok = [r for r in (1, 2, 3, 4, 6, 8, 12, 24, 48, 96, 120, 240, 480, 960) if divides_either(r, R) and r <= 4 * R]
+    return rng.choice(ok) if ok and u < 0.95 else rng.choice([5, 7, 9, 100])
+
+
+def gen_reconfig_case(rng, i):
+    strata = ["replace-clock", "replace-clock", "set-tpb", "send-clock-late", "send-clock-toggle", "add-device", "set-device", "replace-same-rate", "mixed"]
+    stratum = strata[i % len(strata)]
+    R = rng.choice(RC_RATES)
+    devs = [rc_pick_device(rng, R) for _ in range(rng.choice((1, 1, 2, 3)))]
+    if stratum.startswith("send-clock"):
+        devs[0] = "midi_off"
+    events = []
+    cur = R
+    ndev = [len(devs)]
+    midi_idx = lambda: [j for j, sp in enumerate(cur_devs) if sp in ("midi_on", "midi_off")]
+    cur_devs = list(devs)
+    clk = ["internal"]
+
+    def ticks(n):
+        events.append(["tick", max(1, n)])
+
+    def change_rate(same=False):
+        nonlocal cur
+        kind = rng.choice(["clock", "clock", "dummy", "midi", "tpb"])
+        if kind == "tpb" and clk[0] == "midi":          # a MIDI clock's rate cannot be assigned
+            kind = "clock"
+        if same:
+            new = cur
+            kind = rng.choice(["clock", "dummy"])
+        else:
+            cands = [r for r in RC_RATES if r != cur]
+            new = rng.choice(cands) if rng.random() < 0.85 else rng.choice([100, 36, 7, 1000])
+        if kind == "midi":
+            new = 24
+        if kind == "tpb":
+            events.append(["set_tpb", new])
+        else:
+            events.append(["replace_clock", kind, new])
+            clk[0] = kind
+        cur = new
+        ticks(2 * cur + rng.randint(0, 5) if cur <= 960 else cur + 3)         # two beats at the new rate
+
+    ticks(rng.choice([0, 1, 3, 7, 20, 33, cur // 2 + 1, cur + 2]) or 1)
+    if stratum == "replace-clock":
+        change_rate()
+        if rng.random() < 0.4:
+            change_rate()
+    elif stratum == "set-tpb":
+        events.append(["set_tpb", rng.choice([r for r in RC_RATES if r != cur])]); cur = events[-1][1]
+        ticks(2 * cur + 1)
+    elif stratum == "replace-same-rate":
+        change_rate(same=True)
+    elif stratum == "send-clock-late":
+        events.append(["send_clock", 0, 1]); ticks(2 * cur + 3)
+    elif stratum == "send-clock-toggle":
+        for on in (1, 0, 1, 0, 1)[:rng.randint(2, 5)]:
+            events.append(["send_clock", 0, on]); ticks(rng.choice([5, cur // 3 + 1, cur + 1]))
+    elif stratum == "add-device":
+        sp = rc_pick_device(rng, cur); events.append(["add_device", sp]); cur_devs.append(sp); ticks(cur + 5)
+        if len(cur_devs) < 3 and rng.random() < 0.5:
+            sp = rc_pick_device(rng, cur); events.append(["add_device", sp]); cur_devs.append(sp); ticks(cur // 2 + 5)
+    elif stratum == "set-device":
+        sp = rc_pick_device(rng, cur); events.append(["set_device", sp]); cur_devs = [sp]; ticks(cur + 5)
+    else:
+        for _ in range(rng.randint(2, 4)):
+            u = rng.random()
+            if u < 0.35:
+                change_rate(same=rng.random() < 0.2)
+            elif u < 0.55 and len(cur_devs) < 3:
+                sp = rc_pick_device(rng, cur); events.append(["add_device", sp]); cur_devs.append(sp); ticks(rng.choice([7, cur + 1]))
+            elif u < 0.65:
+                sp = rc_pick_device(rng, cur); events.append(["set_device", sp]); cur_devs = [sp]; ticks(rng.choice([7, cur + 1]))
+            elif midi_idx():
+                events.append(["send_clock", rng.choice(midi_idx()), rng.choice([0, 1, 1])]); ticks(rng.choice([9, cur + 1]))
+            else:
+                ticks(11)
+    return {"rate": R, "clock": rng.choice(["dummy", "internal"]), "devs": devs, "events": events, "stratum": stratum}
+
+
+def reconfig_snippet(c):
+    return ("import json, subprocess; print(subprocess.run(['/venv/bin/python', 'harness/impl/c14_impl.py'], input=json.dumps({'reconfig': [%s]}), "
+            "capture_output=True, text=True, env={'PYTHONPATH': '<repo>'}).stdout)   # per tick: base-8 digits 2*device + pulse + 1, sparse against dflt"
+            % json.dumps(dict({k: v for k, v in c.items() if k != "stratum"}, dflt=0)))
+
+
+def describe_obs(v):
+    ds = []
+    while v:
+        d = v % 8 - 1
+        ds.append("dev%d%s" % (d // 2, "+clock" if d % 2 else ""))
+        v //= 8
+    return list(reversed(ds))
+
+
+def check_reconfig(run):
+    rng = run.rng
+    n = 54 if run.tier == "quick" else 700
+    cases = [gen_reconfig_case(rng, i) for i in range(n)]
+    # fixed: the default 480-PPQN timeline, a MIDI output attached with clock output off, switched on later (24 per beat);
+    # the clock source replaced by a 96-PPQN Clock with a MIDI clock output attached (24 per beat at the new rate)
+    cases += [{"rate": 480, "clock": "internal", "devs": ["midi_off"], "events": [["tick", 7], ["send_clock", 0, 1], ["tick", 961]], "stratum": "send-clock-late"},
+              {"rate": 96, "clock": "dummy", "devs": ["midi_off", 12], "events": [["tick", 3], ["send_clock", 0, 1], ["tick", 193]], "stratum": "send-clock-late"},
+              {"rate": 480, "clock": "internal", "devs": ["midi_on"], "events": [["tick", 30], ["replace_clock", "clock", 96], ["tick", 193]], "stratum": "replace-clock"}]
+    exp = []
+    for c in cases:
+        per, code = rc_simulate(c, True)
+        c["dflt"] = mode(per)
+        exp.append((per, code))
+    res = run_sharded(run, "reconfig", [{k: v for k, v in c.items() if k != "stratum"} for c in cases],
+                      lambda c: sum(e[1] for e in c["events"] if e[0] == "tick"))
+    terms, meta = [], []
+    for c, r, (per, code) in zip(cases, res, exp):
+        nt = sum(e[1] for e in c["events"] if e[0] == "tick")
+        run.count(nt)
+        run.cov["oracle_evaluations"] += len(per)
+        run.nontrivial("reconfig %r" % (c,))
+        run.dist("reconfig.%s" % c["stratum"])
+        for e in c["events"]:
+            if e[0] == "replace_clock":
+                run.dist("reconfig.clock source replaced by %s" % {"clock": "Clock", "dummy": "DummyClock", "midi": "MidiInputDevice"}[e[1]])
+        if code:
+            run.dist("reconfig.refused after the change")
+        snippet = reconfig_snippet(c)
+        if "error" in r:
+            run.violation({"kind": "reconfig-raises", "site": SITE_RECONFIG}, {"case": c, "observed": "unexpected %s" % r["error"], "python": snippet})
+            continue
+        want = (len(per), to_sparse(per, c["dflt"]), code)
+        if (r["len"], r["sparse"], r["code"]) != want:
+            got = dict((i, v) for i, v in r["sparse"])
+            j = next((j for j in range(max(len(per), r["len"])) if (per[j] if j < len(per) else None) != (got.get(j, c["dflt"]) if j < r["len"] else None)), None)
+            stale, scode = rc_simulate(c, False)
+            is_stale = (r["len"], r["sparse"], r["code"]) == (len(stale), to_sparse(stale, c["dflt"]), scode) and any(e[0] in ("replace_clock", "set_tpb") for e in c["events"])
+            # where is tick j in the history?
+            pos, where = 0, "?"
+            for e in c["events"]:
+                if e[0] == "tick":
+                    if j is not None and pos <= j < pos + e[1]:
+                        break
+                    pos += e[1]
+                else:
+                    where = e
+            gotj = got.get(j, c["dflt"]) if j is not None and j < r["len"] else None
+            wantj = per[j] if j is not None and j < len(per) else None
+            detail = ("tick %s of the history (tick %s after %r): device.tick() calls %s, expected %s; end code %r, expected %r (-1 = ClockException)"
+                      % (j, None if j is None else j - pos, where, None if gotj is None else describe_obs(gotj), None if wantj is None else describe_obs(wantj), r["code"], code))
+            sig = {"kind": "device-ticks-after-rate-change", "site": SITE_RECONFIG, "what": "stale-converter"} if is_stale else \
+                {"kind": "reconfig-device-ticks", "site": SITE_RECONFIG}
+            run.violation(sig, {
+                "case": c, "observed": detail,
+                "expected": "after a re-configuration every device receives exactly rate_out / rate_in ticks per timeline tick for the rate the timeline HAS "
+                            "(a MIDI clock output 24 pulses per beat, from the first pulse after clock output is switched on), rates that do not divide one "
+                            "another are refused no later than the first tick",
+                "python": snippet})
+            continue
+        want_rates = [24 if e[1] == "midi" else (e[2] if e[0] == "replace_clock" else e[1]) for e in c["events"] if e[0] in ("replace_clock", "set_tpb")]
+        got_rates = list(r.get("rates", []))
+        if (got_rates != want_rates) if r["code"] == 0 else (got_rates != want_rates[:len(got_rates)]):
+            run.violation({"kind": "reconfig-rate", "site": SITE_RECONFIG}, {"case": c, "observed": "Timeline.ticks_per_beat after the changes: %r" % (r.get("rates"),), "python": snippet})
+            continue
+        es = []
+        for e in c["events"]:
+            k = e[0]
+            if k == "tick":
+                es.append([0, e[1]])
+            elif k == "replace_clock":
+                es.append([1, 24 if e[1] == "midi" else e[2]])
+            elif k == "set_tpb":
+                es.append([1, e[1]])
+            elif k in ("add_device", "set_device"):
+                rr = rc_rate(e[1])
+                es.append([2 if k == "add_device" else 3, -1 if rr is None else rr, 1 if rc_on(e[1]) else 0])
+            else:
+                es.append([4, e[1], e[2]])
+        devs = "[" + "; ".join("(%s, %d)" % (zlit(-1 if rc_rate(sp) is None else rc_rate(sp)), 1 if rc_on(sp) else 0) for sp in c["devs"]) + "]"
+        terms.append("reconfig_ok %s %s %s %s %s %s %s" % (zlit(c["rate"]), devs, lst([zlist(x) for x in es]), zlit(c["dflt"]), zlit(r["len"]),
+                                                          plist(r["sparse"]), zlit(r["code"])))
+        meta.append(c)
+    run.sample({"reconfig_case": {k: v for k, v in cases[0].items() if k != "dflt"}, "sparse": res[0].get("sparse", [])[:8]})
+    failing = run.coq_failing(HEADER_RECONFIG, terms, chunk=8, jobs=8)
+    run.cov["traces_validated_against_impl"] += len(terms) - len(failing)
+    for i in failing:
+        run.violation({"kind": "correspondence", "site": SITE_RECONFIG}, {
+            "broken": "correspondence model/implementation on a re-configured timeline (Clock/Reconfig.v; C14_reconfig_* / C14_send_clock_* no longer speak about this code)",
+            "case": meta[i], "coq_term": terms[i][:2000], "python": reconfig_snippet(meta[i])}, found_input=False)
+
+
 def check(run):
     for name, f in (("multiplier", check_multiplier), ("timeline", check_timeline), ("clock", check_clock), ("midi", check_midi),
-                    ("midi_wired", check_midi_wired)):
+                    ("midi_wired", check_midi_wired), ("reconfig", check_reconfig)):
         t0 = time.time()
         f(run)
         run.cov["seconds_" + name] = round(time.time() - t0, 1)
